@@ -468,7 +468,7 @@ func (w *world) buildTemplate(inc *incM, kind string) *tmpl {
 		return w.tOpen(inc, pick(w, "name", fileNames), pick(w, "openOwner", openOwners), pick(w, "access", accesses), how)
 	case "open_then":
 		name := pick(w, "name", fileNames)
-		via := pick(w, "currentVia", []string{"none", "none", "save_restore", "putfh_other", "putfh_other", "putfh_same", "putrootfh", "lookup_other", "lookup_same"})
+		via := pick(w, "currentVia", []string{"none", "none", "save_restore", "save_reopen_restore", "save_reopen_restore", "putfh_other", "putfh_other", "putfh_same", "putrootfh", "lookup_other", "lookup_same"})
 		otherFH, ok := w.pickFH(true)
 		if !ok {
 			via = "none"
@@ -487,6 +487,10 @@ func (w *world) buildTemplate(inc *incM, kind string) *tmpl {
 				otherName = n
 				break
 			}
+		}
+		if via == "save_reopen_restore" {
+			then = pick(w, "thenSuperseded", []string{"read", "write", "close", "close", "downgrade", "downgrade"})
+			return w.tOpenReopenThen(inc, name, pick(w, "openOwner", openOwners), pick(w, "access", accesses), pick(w, "reopenAccess", accesses), then)
 		}
 		return w.tOpenThen(inc, name, pick(w, "openOwner", openOwners), pick(w, "access", accesses), then, via, otherFH, otherName)
 	case "open_fh":
